@@ -145,14 +145,14 @@ def section_utf7(ctx) -> None:
     import itertools
     rng = ctx.rng
     cases = []
-    for n in range(0, 4 if ctx.quick else 6):
+    for n in range(0, 4 if ctx.quick else 5):
         for t in itertools.product(b'&-A,+!\xff', repeat=n):
             cases.append(bytes(t))
     alph = b'&-,AOkaZ09+/!x\xff~\\'
-    for _ in range(ctx.scale(900, 20000)):
+    for _ in range(ctx.scale(900, 6000)):
         cases.append(bytes(rng.choice(alph) for _ in range(rng.randint(0, 12))))
     b64 = b'ABCDEFGHIJKLMNOPQRSTUVWXYZabcdefghijklmnopqrstuvwxyz0123456789+,'
-    for _ in range(ctx.scale(400, 5000)):
+    for _ in range(ctx.scale(400, 2000)):
         cases.append(b'&' + bytes(rng.choice(b64) for _ in range(rng.randint(0, 12)))
                      + rng.choice([b'-', b'', b'-x', b'!', b'-&', b'&']))
     terms, keep = [], []
@@ -198,7 +198,7 @@ def gen_parse_inputs(ctx, n_grammar: int, n_mut: int, n_raw: int) -> list[tuple[
     return out
 
 
-SWEEP_BASES = [b'a NOOP\r\n', b'a UID FETCH 1:* (FLAGS BODY[1.TEXT]<0.5>)\r\n',
+SWEEP_BASES = [b'a SEARCH NOT NOT (OR ALL 1:*)\r\n', b'a UID FETCH 1:* (FLAGS BODY[1.TEXT]<0.5>)\r\n',
                b'a SEARCH CHARSET utf-8 OR SUBJECT "x" NOT (FROM y 1:3)\r\n',
                b'a APPEND INBOX (\\Seen) {3+}\r\nabc\r\n', b'a STORE 1 +FLAGS.SILENT (\\Seen)\r\n',
                b'a LIST "" &AOk-*\r\n', b'a SELECT x (CONDSTORE)\r\n', b'a LOGIN u {1}\r\n',
@@ -211,7 +211,7 @@ def sweep_lines(quick: bool) -> list[bytes]:
     (thorough: five lines).  All 256 values at the lexically interesting
     positions are covered by CLASS_SWEEPS."""
     out = []
-    bases = SWEEP_BASES[1:2] if quick else SWEEP_BASES[:5]
+    bases = SWEEP_BASES[1:2] if quick else SWEEP_BASES[:4]
     special = [0x00, 0x0a, 0x0d, 0x20, 0x22, 0x28, 0x29, 0x2a, 0x2c, 0x2e, 0x30, 0x3a, 0x3c, 0x41, 0x5b, 0x5d,
                0x7b, 0x80]
     values = sorted(set(range(0, 256, 5)) | set(special)) if not quick else special
@@ -242,7 +242,7 @@ def class_sweeps() -> list[bytes]:
 
 def section_parse(ctx) -> None:
     """Model vs Commands.parse, every prefix of the continuation exchange."""
-    inputs = gen_parse_inputs(ctx, ctx.scale(600, 6000), ctx.scale(600, 6000), ctx.scale(100, 1000))
+    inputs = gen_parse_inputs(ctx, ctx.scale(600, 3500), ctx.scale(600, 3500), ctx.scale(100, 600))
     inputs += [('sweep', ln) for ln in sweep_lines(ctx.quick)]
     g = Gen(ctx.rng)
     inputs += [('deep', ln) for ln in g.deep_lines(3000)] + [('deep', ln) for ln in g.deep_lines(30)]
@@ -462,7 +462,7 @@ def section_server(ctx) -> None:
     rng = ctx.rng
     g = Gen(rng)
     cases: list[tuple[str, str, bytes]] = []
-    n = ctx.scale(800, 8000)
+    n = ctx.scale(800, 4500)
     for stream, share in (('grammar', 0.5), ('mutated', 0.4), ('raw', 0.1)):
         for _ in range(int(n * share)):
             state, data = pick_case(g, rng, stream)
@@ -477,7 +477,7 @@ def section_server(ctx) -> None:
     # byte sweep of a few base lines against the live server
     for base, state in ((b'a LOGIN testuser testpass\r\n', 'na'), (b'a FETCH 1 BODY[1]<0.5>\r\n', 'sel'),
                         (b'a SELECT &AOk-\r\n', 'auth')):
-        vals = range(0, 256, 4) if not ctx.quick else [0x00, 0x0d, 0x20, 0x22, 0x26, 0x28, 0x5b, 0x7b, 0xff]
+        vals = range(0, 256, 6) if not ctx.quick else [0x00, 0x0d, 0x20, 0x22, 0x26, 0x28, 0x5b, 0x7b, 0xff]
         for k in range(len(base)):
             for c in vals:
                 if c != base[k]:
@@ -583,10 +583,14 @@ def section_stored(ctx) -> None:
     for m in ADVERSARIAL_MESSAGES[::4]:
         msgs.append(b'Content-Type: message/rfc822\r\n\r\n' + m)
         msgs.append(b'Content-Type: multipart/mixed; boundary=q\r\n\r\n--q\r\n' + m + b'\r\n--q--\r\n')
-    for _ in range(ctx.scale(10, 300)):
+    for _ in range(ctx.scale(10, 150)):
         msgs.append(g.message())
     if ctx.quick:
-        msgs = msgs[::4] + msgs[1::9]
+        # the witnesses of the findings are always part of the quick subset
+        must = [m for m in ADVERSARIAL_MESSAGES
+                if any(k in m for k in (b'Encoding: bogus', b'not base64', b'Date: not a date', b'From: <\r',
+                                        b'Sender: a@b, c@d', b'Content-Type :', b're: re: '))]
+        msgs = must + msgs[::5] + msgs[1::11]
     hist = collections.Counter()
     D.run_all(run_stored(ctx, msgs, hist))
     ctx.extra['stored_outcomes'] = dict(hist)
